@@ -89,6 +89,9 @@ pub struct Scenario {
     pub handshake: bool,
     pub clean: bool,
     pub fates: Vec<Fate>,
+    /// emission index at which the fate list starts (datagrams before it are delivered)
+    #[serde(default)]
+    pub fates_at: usize,
     pub script: Vec<Sev>,
     pub after: After,
     /// model receiver acknowledges a gap at once (RFC 7440) instead of staying silent
@@ -109,6 +112,7 @@ impl Scenario {
             handshake: false,
             clean: true,
             fates: vec![],
+            fates_at: 0,
             script: vec![],
             after: After::Honest,
             gap_ack: true,
@@ -370,6 +374,7 @@ pub enum Dir {
 
 pub struct Net {
     fates: Vec<Fate>,
+    fates_at: usize,
     next: usize,
     swap_hold: [Option<Vec<u8>>; 2],
     late_hold: [Vec<Vec<u8>>; 2],
@@ -379,9 +384,10 @@ pub struct Net {
 }
 
 impl Net {
-    fn new(fates: Vec<Fate>) -> Net {
+    fn new(fates: Vec<Fate>, fates_at: usize) -> Net {
         Net {
             fates,
+            fates_at,
             next: 0,
             swap_hold: [None, None],
             late_hold: [vec![], vec![]],
@@ -391,7 +397,7 @@ impl Net {
     }
 
     fn route(&mut self, dir: Dir, bytes: Vec<u8>) -> Vec<Vec<u8>> {
-        let fate = self.fates.get(self.next).copied().unwrap_or(Fate::Deliver);
+        let fate = if self.next >= self.fates_at { self.fates.get(self.next - self.fates_at).copied().unwrap_or(Fate::Deliver) } else { Fate::Deliver };
         let idx = self.next;
         self.next += 1;
         self.emissions += 1;
@@ -466,7 +472,7 @@ impl Env {
                 Role::Sender => Peer::Rx(ModelReceiver::new(sc.blk, sc.ws, sc.gap_ack, sc.dally)),
                 Role::Receiver => Peer::Tx(ModelSender::new(sc.blk, sc.ws, file.clone())),
             },
-            net: Net::new(sc.fates.clone()),
+            net: Net::new(sc.fates.clone(), sc.fates_at),
             inbox: VecDeque::new(),
             script_pos: 0,
             next_dt: Duration::from_millis(1),
